@@ -153,20 +153,103 @@ def source_fact_extend(repo):
     return t_ext == "same", "nextAddresses: %s; extendAddresses: %s" % (d_next, d_ext)
 
 
+def skeleton(body):
+    """The statements of a function body at nesting depth 0: every nested `{...}` block
+    (and what stands between the braces) is replaced by `{}`; parentheses are kept."""
+    out, depth = [], 0
+    for c in body:
+        if c == "{":
+            if depth == 0:
+                out.append("{}")
+            depth += 1
+        elif c == "}":
+            depth -= 1
+        elif depth == 0:
+            out.append(c)
+    return "".join(out)
+
+
+SUCCESS_RETURN = re.compile(r"^\s*return\s*(nil|[^,\n]+,\s*nil)?\s*$", re.M)
+
+
+def unconditional_on_success(body, call_re, what, path):
+    """True iff the call matched by call_re is a statement of the body's top level (not
+    inside any if/for/switch/closure), its error is handed to the caller, and nothing
+    before it returns success.  Raises ExtractError when the call is there in another
+    shape (the behavioural probe decides then); returns None when it is absent."""
+    calls = list(re.finditer(call_re, body))
+    if not calls:
+        return None
+    sk = skeleton(body)
+    m = re.search(call_re, sk)
+    if not m or len(calls) != 1:
+        raise ExtractError("%s: %s is called inside a nested block (or several times): not unconditional by shape" % (path, what))
+    # the statement the call stands in: from the previous line break to the end of the line
+    ls = sk.rfind("\n", 0, m.start()) + 1
+    le = sk.find("\n", m.end())
+    stmt = norm(sk[ls:le if le >= 0 else len(sk)])
+    rest = norm(sk[le if le >= 0 else len(sk):])
+    call = norm(m.group(0))
+    handed_on = (stmt == "return" + call
+                 or (stmt in ("err=" + call, "err:=" + call) and rest.startswith("iferr!=nil{}"))
+                 or stmt == "iferr:=" + call + ";err!=nil{}" or stmt == "iferr=" + call + ";err!=nil{}")
+    if not handed_on:
+        raise ExtractError("%s: %s: statement %r not recognised" % (path, what, stmt[:120]))
+    # no success return before the call, at any depth
+    before = body[:body.rfind("\n", 0, calls[0].start()) + 1]
+    early = SUCCESS_RETURN.search(before)
+    if early:
+        raise ExtractError("%s: a success return (%r) precedes %s" % (path, early.group(0).strip(), what))
+    return True
+
+
 def source_fact_last_account(repo):
+    """STRUCTURAL: createManagerKeyScope (or NewScopedKeyManager itself) stores lastAccount
+    for the new scope on every successful path - `putLastAccount(ns, &scope,
+    DefaultAccountNum)` is a top-level statement whose error is returned, no success
+    return precedes it - and NewScopedKeyManager calls createManagerKeyScope the same
+    way.  The text `putLastAccount(` somewhere in the body (under an `if`, in a closure,
+    after an early `return nil`) is NOT accepted: such a shape raises, and the behavioural
+    probe (first account number of new custom scopes) decides."""
     mpath = os.path.join(repo, "waddrmgr", "manager.go")
     msrc = strip_comments(open(mpath).read())
-    new_scope = norm(method_body(msrc, "Manager", "NewScopedKeyManager", mpath))
-    key_scope = norm(func_body(msrc, "createManagerKeyScope", mpath))
-    if "createManagerKeyScope(" not in new_scope:
-        raise ExtractError("%s: NewScopedKeyManager does not call createManagerKeyScope" % mpath)
-    put = "putLastAccount(ns,&scope,DefaultAccountNum)"
-    n_put = new_scope.count("putLastAccount(") + key_scope.count("putLastAccount(")
-    if n_put == 0:
+    new_scope = method_body(msrc, "Manager", "NewScopedKeyManager", mpath)
+    key_scope = func_body(msrc, "createManagerKeyScope", mpath)
+    put_re = r"putLastAccount\(\s*ns\s*,\s*&\s*scope\s*,\s*DefaultAccountNum\s*,?\s*\)"
+    any_put = norm(new_scope).count("putLastAccount(") + norm(key_scope).count("putLastAccount(")
+    if any_put == 0:
+        if "createManagerKeyScope(" not in norm(new_scope):
+            raise ExtractError("%s: NewScopedKeyManager does not call createManagerKeyScope" % mpath)
         return False, "no putLastAccount in NewScopedKeyManager / createManagerKeyScope"
-    if put in new_scope or put in key_scope:
-        return True, put
-    raise ExtractError("%s: putLastAccount call in NewScopedKeyManager/createManagerKeyScope not recognised" % mpath)
+    in_new = unconditional_on_success(new_scope, put_re, "putLastAccount(ns, &scope, DefaultAccountNum) in NewScopedKeyManager", mpath)
+    if in_new:
+        return True, "NewScopedKeyManager: putLastAccount(ns,&scope,DefaultAccountNum) at top level, error returned"
+    in_key = unconditional_on_success(key_scope, put_re, "putLastAccount(ns, &scope, DefaultAccountNum) in createManagerKeyScope", mpath)
+    if not in_key:
+        raise ExtractError("%s: putLastAccount call in NewScopedKeyManager/createManagerKeyScope not recognised" % mpath)
+    ck_re = r"createManagerKeyScope\([^()]*(\([^()]*\)[^()]*)*\)"
+    # the one condition the model shares: the root manager is not watching-only (a manager
+    # created from a seed never is) - `if !m.WatchOnly() { err = createManagerKeyScope(...) ... }`
+    # standing at the top level of NewScopedKeyManager
+    scope_body, where = new_scope, "at top level"
+    guard_re = r"if\s*!\s*m\.WatchOnly\(\)\s*\{"
+    if not re.search(ck_re, skeleton(new_scope)):
+        top = len(re.findall(r"if\s*!\s*m\.WatchOnly\(\)\s*\{\}", skeleton(new_scope)))
+        hdrs = [h for h in re.finditer(guard_re, new_scope)
+                if re.search(ck_re, _body_from(new_scope, h, "if !m.WatchOnly()", mpath))]
+        # every `if !m.WatchOnly()` of the body stands at its top level, and one of them holds the call
+        hdr = hdrs[0] if len(hdrs) == 1 and top == len(re.findall(guard_re, new_scope)) else None
+        if hdr:
+            scope_body, where = _body_from(new_scope, hdr, "if !m.WatchOnly()", mpath), "under the top-level `if !m.WatchOnly()`"
+            early = SUCCESS_RETURN.search(new_scope[:hdr.start()])
+            if early:
+                raise ExtractError("%s: NewScopedKeyManager: a success return (%r) precedes createManagerKeyScope" % (
+                    mpath, early.group(0).strip()))
+    called = unconditional_on_success(scope_body, ck_re, "createManagerKeyScope(...) in NewScopedKeyManager", mpath)
+    if not called:
+        raise ExtractError("%s: NewScopedKeyManager does not call createManagerKeyScope" % mpath)
+    return True, ("createManagerKeyScope: putLastAccount(ns,&scope,DefaultAccountNum) at top level, error returned, "
+                  "no success return before it; NewScopedKeyManager calls it " + where)
 
 
 def source_fact_cache_guard(repo):
